@@ -132,6 +132,9 @@ pub struct HistCfg {
     /// sort the index by `num` (None = unsorted)
     pub sorted: Option<bool>,
     pub dir: DirKind,
+    /// doc store blocks of 48 bytes (every document closes a block: segments with many store blocks) instead of 16 KiB
+    #[serde(default)]
+    pub tiny_blocks: bool,
 }
 pub fn cfg_strategy(dirs: &'static [DirKind]) -> impl Strategy<Value = HistCfg> {
     (
@@ -140,8 +143,9 @@ pub fn cfg_strategy(dirs: &'static [DirKind]) -> impl Strategy<Value = HistCfg> 
         prop_oneof![3 => Just(Policy::NoMerge), 2 => (2u8..4).prop_map(Policy::LogSmall), 1 => Just(Policy::Default)],
         prop_oneof![3 => Just(None), 1 => Just(Some(true)), 1 => Just(Some(false))],
         prop::sample::select(dirs),
+        prop::bool::weighted(0.3),
     )
-        .prop_map(|(threads, flush_every, policy, sorted, dir)| HistCfg { threads, flush_every, policy, sorted, dir })
+        .prop_map(|(threads, flush_every, policy, sorted, dir, tiny_blocks)| HistCfg { threads, flush_every, policy, sorted, dir, tiny_blocks })
 }
 
 pub struct Fields {
@@ -237,6 +241,7 @@ impl Env {
         let (schema, f) = hist_schema();
         let settings = IndexSettings {
             sort_by_field: cfg.sorted.map(|asc| IndexSortByField { field: "num".into(), order: if asc { Order::Asc } else { Order::Desc } }),
+            docstore_blocksize: if cfg.tiny_blocks { 48 } else { IndexSettings::default().docstore_blocksize },
             ..Default::default()
         };
         let mut tempdir = None;
